@@ -51,10 +51,15 @@ class Operator(Token):
 
     def set_expr(self, *tokens):
         expr, name = [t.get_expr for t in tokens], self.name
+        # A sign after a sign or an operator, and a double percent, would not
+        # be read back as the same tree: parenthesise the signed operand.
+        signed = [e[:1] in ('-', '+') for e in expr]
         if name == '%':
-            expr = '{}%'.format(*expr)
+            expr = ('({})%' if expr[0].endswith('%') else '{}%').format(*expr)
         elif name in ('u-', 'u+'):
-            expr = '{}{}'.format(name[1], *expr)
+            expr = ('{}({})' if signed[0] else '{}{}').format(name[1], *expr)
+        elif name not in ' ,:' and signed[-1]:
+            expr = '(%s)' % (' %s ' % name).join((expr[0], '(%s)' % expr[1]))
         elif name in ' ,:':
             expr = '(%s)' % ('%s ' % name.strip(' ')).join(expr)
         else:
